@@ -22,7 +22,7 @@ from ..plot import (
     plot_trials_alt,
 )
 from ..reusable import ReusableOptimizer
-from ..scoring import get_score_fn
+from ..scoring import ensure_basic_quantities_are_computed, get_score_fn
 from ..utils import BadTrial, get_rng
 
 
@@ -310,6 +310,8 @@ class ComputeScore:
         try:
             trial = self.fn(*args, **kwargs)
             trial["score"] = self.score_fn(trial) ** self.score_compression
+            # a custom callable objective need not have filled these in
+            ensure_basic_quantities_are_computed(trial)
             # random smudge is for baytune/scikit-learn nan/inf bug
             trial["score"] += self.rng.gauss(0.0, self.score_smudge)
         except BadTrial:
